@@ -93,7 +93,7 @@ def _sig(params, rng, is_mw, bad_next, allow_kwonly, allow_posonly, extra_next=N
 
 
 CARRIERS = ('function', 'lambda', 'method', 'callable_obj', 'staticmethod', 'classmethod', 'decorated', 'decorated_method',
-            'decorated_callable_obj', 'decorated_classmethod')
+            'decorated_callable_obj', 'decorated_classmethod', 'decorated_by_class')
 
 
 def _wrap_carrier(carrier, sig, body_call, names, env):
@@ -121,6 +121,21 @@ def _wrap_carrier(carrier, sig, body_call, names, env):
         src = 'def f(%s):\n    return %s\n' % (sig, call)
         exec(src, env)
         return clastic_decorator(deco)(env['f'])
+    if carrier == 'decorated_by_class':
+        # clastic_decorator around a CLASS-based decorator: the decorated thing is an object, not a function
+        from clastic.decorators import clastic_decorator
+
+        class CallCounter(object):
+            def __init__(self, func):
+                self.func = func
+                self.calls = 0
+
+            def __call__(self, *a, **kw):
+                self.calls += 1
+                return self.func(*a, **kw)
+        src = 'def f(%s):\n    return %s\n' % (sig, call)
+        exec(src, env)
+        return clastic_decorator(CallCounter)(env['f'])
     if carrier in ('decorated_method', 'decorated_callable_obj', 'decorated_classmethod'):
         # clastic_decorator applied to a bound method / callable object / class method
         from functools import wraps
@@ -268,9 +283,12 @@ def build(rec, seed=0, kwonly=True, posonly=False, carriers=True, methods=None):
     endpoint = make_inner(epf, 2)
     render = make_inner(rnf, 3) if rec['hasRender'] else None
     url = sorted(rec['url'])
-    pattern = '/' + '/'.join('<%s>' % u for u in url)
+    # a literal first segment, so that a REPEATED slash can stand in front of every binding (the default slash mode
+    # tolerates it; the value a function receives is still the segment, without any slash)
+    pattern = '/p' + ''.join('/<%s>' % u for u in url)
     b.pattern = pattern
-    b.path = '/' + '/'.join('uv-%s' % u for u in url)
+    b.path = '/p' + ''.join('/uv-%s' % u for u in url)
+    b.path_slashes = '/p' + ''.join('//uv-%s' % u for u in url)
     b.nullpath = '/zz/zz/zz/zz'
     b.res = dict((nm, ResObj(nm)) for nm in rec['res'])
     b.rres = dict((nm, ResObj(nm)) for nm in rec['rres'])
@@ -303,7 +321,7 @@ def build(rec, seed=0, kwonly=True, posonly=False, carriers=True, methods=None):
         rnames = sorted(rec['rres'])[:len(url)]
         dnames = rnames + ['dz%d' % i for i in range(len(url) - len(rnames))]
         try:
-            decoy = Route('/' + '/'.join('<%s>' % nm for nm in dnames), lambda: Response('decoy'), methods=['DELETE'])
+            decoy = Route('/p' + ''.join('/<%s>' % nm for nm in dnames), lambda: Response('decoy'), methods=['DELETE'])
             b.app.add(decoy, index=0)
             b.decoy = dnames
         except Exception as e:  # noqa  (not part of the configuration under test)
@@ -358,7 +376,7 @@ def tag_of(b, value, name, this_reqno, request_obj, app=None):
     return ['alien', name, 0, 0]
 
 
-def run_request(b, which, method='GET', ep_returns_response=False, via_parent=False):
+def run_request(b, which, method='GET', ep_returns_response=False, via_parent=False, slashes=False):
     """which: 'main' | 'null'.  Returns (status or exception, observed calls as {(m,ph): {name: tag}})"""
     from werkzeug.test import Client
     from werkzeug.wrappers import BaseResponse
@@ -368,7 +386,7 @@ def run_request(b, which, method='GET', ep_returns_response=False, via_parent=Fa
     W.ep_returns_response = ep_returns_response
     serving = b.elsewhere if via_parent else b.app
     cl = Client(serving, BaseResponse)
-    path = b.path if which == 'main' else b.nullpath
+    path = (b.path_slashes if slashes else b.path) if which == 'main' else b.nullpath
     if via_parent:
         path = '/elsewhere' + path
     err = None
